@@ -197,15 +197,17 @@ type File struct {
 	Header []string
 	Rows   [][]string
 	BOM    bool
+	// QuotedHeader: every header cell is written inside double quotes (a legal CSV presentation)
+	QuotedHeader bool
 }
 
-func writeCSVRecord(w io.Writer, rec []string) {
+func writeCSVRecord(w io.Writer, rec []string, quoteAll bool) {
 	var sb strings.Builder
 	for i, f := range rec {
 		if i > 0 {
 			sb.WriteByte(',')
 		}
-		if strings.ContainsAny(f, ",\"\r\n") || (len(rec) == 1 && f == "") {
+		if quoteAll || strings.ContainsAny(f, ",\"\r\n") || (len(rec) == 1 && f == "") {
 			sb.WriteByte('"')
 			sb.WriteString(strings.ReplaceAll(f, "\"", "\"\""))
 			sb.WriteByte('"')
@@ -232,10 +234,10 @@ func Archive(files []File) []byte {
 		// minimal quoting (RFC 4180): a field is quoted only when it contains a comma, a quote, CR or LF,
 		// so leading/trailing spaces reach the reader unquoted
 		if f.Header != nil {
-			writeCSVRecord(w, f.Header)
+			writeCSVRecord(w, f.Header, f.QuotedHeader)
 		}
 		for _, r := range f.Rows {
-			writeCSVRecord(w, r)
+			writeCSVRecord(w, r, false)
 		}
 	}
 	if err := zw.Close(); err != nil {
